@@ -894,7 +894,7 @@ PROPS["C09"] = {
         "'status zero means every required file is written, import paths resolve, packages compile' is decided by running the built gocc over the flag/output-directory/-p configuration space on four grammars (quick: a deterministic sample of 24 configurations; thorough: all 384), not by a contract on main",
         "file header and action expressions are assumed to be valid Go, as the property states",
     ],
-    "explanation": "Termination: decreases obligations discharged by govc for the loops under contract; every other loop of the generator is covered only by the bounded scopes (every gocc run of the LEX/SYN sweeps must finish). Complete, compilable output: finite configuration matrix executed with the real binary and go build, on grammars with hostile spellings. This property is mostly outside the reach of function contracts here; the level is 'other' and the split is stated.",
+    "explanation": "Termination: gocc's own scanner is proved to terminate on every input (every loop of internal/frontend/scanner has a variant - the number of characters left, counting the look-ahead - and Scan, including its restart after a comment, consumes at least one character unless the input is exhausted; no index out of range); decreases obligations are discharged for the other loops under contract; every remaining loop of the generator (the LR loop of its own parser, the fixed points) is covered only by the bounded scopes: every gocc run of the LEX/SYN sweeps, of every cut of the corpus grammars and of the ill-formed corpus must finish. Complete, compilable output: finite configuration matrix executed with the real binary and go build, on grammars with hostile spellings. This property is mostly outside the reach of function contracts here; the level is 'other' and the split is stated.",
 }
 
 
